@@ -56,6 +56,10 @@ TABLE = [
      "with patches, extra channels are upsampled in two stages: the padding counts the passes of both"),
     (("C01", "C17"), "jxl_jbr::JpegBitstreamData::reconstruct", "guarded", "::new <= call:JpegBitstreamData::is_complete", "D50",
      "the data section is sliced by the lengths the header announces only when all of it has been decompressed"),
+    (("C17", "C01"), "<jxl_jbr::huffman::HuffmanCode as jxl_oxide_common::Bundle", "reject", "sum_counts == 0", "D63",
+     "a Huffman code of the reconstruction data has at least the sentinel symbol: the DHT writer takes values[..len - 1], the table builder lengths[0]"),
+    (("C17", "C01"), "<jxl_jbr::huffman::HuffmanCode as jxl_oxide_common::Bundle", "reject", "counts != 0", "D63",
+     "no symbol has a zero-length code (the table builder shifts by 64 - length)"),
     (("C17",), "jxl_oxide::aux_box::jbrd::Jbrd::data", "calls", "JpegBitstreamData::is_complete", "D50",
      "the jbrd box is handed out (status Available) only once its data section is complete; the header alone is parsed much earlier"),
     (("C17",), "jxl_jbr::reconstruct::JpegBitstreamReconstructor::<'_, '_, '_>::process_next", "reads", "do_ycbcr", "seed-C17f",
